@@ -70,6 +70,9 @@ def jobs(ctx):
     # coverage field dumps_of_shrunk_heap must be > 0, see run())
     add("coulomb/power_bounded*12", J + "coulomb_atoms/power_bounded.ini", 2.4 if not t else 6.0, 0.29, samp=0.11,
         chain=0.17, n=12, sched=("heap_scheduler",))
+    # a box with L != 1 and several (deep-copied) pair handlers: copies made by the taggers vs objects rebuilt on resume
+    add("coulomb/power_bounded*4@L=3", J + "coulomb_atoms/power_bounded.ini", 3.0 if not t else 9.0, 0.41, samp=0.31,
+        chain=0.47, n=4, sched=("heap_scheduler",), extra={("HypercubicSetting", "system_length"): "3.0"})
     add("dipoles/cell_bounded", J + "dipoles/cell_bounded.ini", 0.4 if not t else 1.2, 0.047, samp=0.011, chain=0.013)
     add("dipoles/dipole_motion", J + "dipoles/dipole_motion.ini", 5.0 if not t else 16.0, 0.71, samp=0.2, chain=0.27,
         sched=("heap_scheduler",) if not t else ("heap_scheduler", "list_scheduler"))
@@ -141,6 +144,16 @@ def run_job(name, spec, dump, seed, res, stats, pool, only_dump=None):
             k = futs[fut]
             r = fut.result()
             stats["resumes"] += 1
+            pd, pr = (ref.get("probes") or [None] * len(marks))[k], (r.get("probes") or [None])[0]
+            if pd and pr:
+                stats["potential_objects_compared"] = stats.get("potential_objects_compared", 0) + len(pd)
+                for a, b in zip(pd, pr):
+                    if a != b:
+                        res.add("restored-potential-differs", dict(dict(case0, dump=k), key="restored-potential-differs"),
+                                "%s: dump %d: the %s of event handler %d (%s) restored from the dump answers %r at the "
+                                "probe separations, the dumped object answered %r"
+                                % (name, k, a[2], a[0], a[1], b[3][:4], a[3][:4]))
+                        break
             hd, hr = (ref.get("heap") or [None] * len(marks))[k], (r.get("heap") or [None])[0]
             if hd and hr and hr[1] < hd[1]:
                 # the dumped C heap had shrunk below an allocation threshold it once exceeded: the restored heap is
@@ -238,6 +251,7 @@ def run(ctx):
         "evaluations": stats["resumes"] + len(all_jobs), "distinct_nontrivial": stats["dumps"],
         "cell_order_comparisons": stats.get("order_comparisons", 0),
         "dumps_of_shrunk_heap": stats.get("dumps_of_shrunk_heap", 0),
+        "potential_objects_compared": stats.get("potential_objects_compared", 0),
         "max_heap_entries_at_dump": stats.get("max_heap_entries_at_dump", 0),
         "rule": "every dump written by each reference run (real DumpingOutputHandler, real Mersenne Twister, dumping "
                 "interval incommensurate with the other intervals; one variant with commensurate intervals = exact "
